@@ -129,10 +129,10 @@ def run_property(pid, tier, only=None):
         solver_out = [{'result': r['result'], 'backend': r['backend'], 'time_s': round(r['time'], 2),
                        'model': r['model'], 'clause': ob.info.get('text')} for ob, r in items if r['result'] != 'unsat']
         rp = os.path.join(ROOT, 'replays', '%s_%s.json' % (pid, ''.join(ch if ch.isalnum() else '_' for ch in name)[-80:]))
-        found = None
         hook = spec.get('replay')
-        if hook:
-            found = run_replay_search(pid, hook, name, solver_out)
+        if hook and 'replay_result' not in spec:
+            spec['replay_result'] = run_replay_search(pid, hook, name, solver_out)   # one search per run
+        found = spec.get('replay_result')
         doc = {'property': pid, 'obligation': name, 'solver_output': solver_out, 'repo': REPO,
                'failing_input': found, 'replay_cmd': './check %s --replay %s' % (pid, rp)}
         with open(rp, 'w') as f:
@@ -188,6 +188,7 @@ def run_replay_search(pid, hook, name, solver_out):
     """Ask the property's replay harness (real code under /venv python) for a failing input."""
     env = dict(os.environ)
     env['PYTHONPATH'] = os.path.join(REPO, 'lib', 'python')
+    env['VERIF_PROP'] = pid
     try:
         p = subprocess.run([VENV_PY, os.path.join(ROOT, 'replay', hook), '--search', name],
                            input=json.dumps(solver_out, default=str), capture_output=True, text=True, timeout=300, env=env)
@@ -210,6 +211,7 @@ def do_replay(pid, path):
         return 1
     env = dict(os.environ)
     env['PYTHONPATH'] = os.path.join(REPO, 'lib', 'python')
+    env['VERIF_PROP'] = pid
     p = subprocess.run([VENV_PY, os.path.join(ROOT, 'replay', spec['replay']), '--input', json.dumps(doc['failing_input'])],
                        capture_output=True, text=True, env=env)
     print(p.stdout[-3000:])
